@@ -37,7 +37,8 @@ Definition G (c : string) (sh : list Z) (dt : string) (r : qarg) (st : tkind) (m
   {| g_cls := c; g_shape := sh; g_dtype := dt; g_rate := r; g_start := st; g_meta := me; g_center := cf; g_bw := bw; g_align := al; g_pol := po |}.
 Definition wf (s : signal) : Z := if WF s then 0%Z else 1%Z.
 '''
-DTYPES = ['float64', 'float32', 'float16', 'complex128', 'complex64', 'int8', 'int16', 'int32', 'int64', 'uint8', 'uint16', 'uint32', 'uint64', 'bool']
+DTYPES = ['float64', 'float32', 'float16', 'complex128', 'complex64', 'int8', 'int16', 'int32', 'int64', 'uint8', 'uint16', 'uint32', 'uint64', 'bool',
+          '>f8', '>f4', '>c16', '>c8', '>i4', '>f8', '>c16']      # non-native byte order: not in any class's set, safely castable
 
 
 def s_lit(s):
